@@ -149,6 +149,9 @@ def enumerated_family():
         dict(inn=[(2, 0, E), (3, 0, O), (1, 1, O), (1, 1, E)], out=[(2, 0, O), (1, 0, E), (1, 1, E), (1, 1, O)], biases=True, f_in=2, f_out=2,
              path_normalization="path", optimize=False),
         dict(inn=[(1, 0, E), (2, 0, O)], out=[(2, 0, O), (2, 0, E)], biases=[False, True]),
+        # several paths into one output, the LAST listed one empty (zero multiplicity) and an earlier one not
+        dict(inn=[(2, 0, E), (1, 1, O), (0, 0, E)], out=[(3, 0, E), (2, 1, O)]),
+        dict(inn=[(0, 0, E), (2, 0, E)], out=[(2, 0, E), (1, 0, E)], ins=[(1, 0), (0, 0), (0, 1)], path_normalization="path"),
     ]
     for j, kw in enumerate(extra):
         fam.append(LConfig(f"X{j:03d}", kw.pop("inn"), kw.pop("out"), kw.pop("ins", None), **kw))
